@@ -488,8 +488,8 @@ type Config struct {
 	CookieSecret []byte
 
 	// ReplayWindow 重放攻击检测的滑动窗口大小。
-	// 窗口大小决定可容忍的最大包乱序程度，默认 64，最小 32。
-	// 值越大，乱序容忍度越高，但内存占用略增。
+	// 窗口大小决定可容忍的最大包乱序程度，默认 64，最小 32，有效上限 64（位图位数）。
+	// 值越大，乱序容忍度越高。
 	ReplayWindow int
 
 	// InitialRetransmitTimeout 握手消息初始重传超时时间。
